@@ -244,6 +244,10 @@ def coq_proj(p):
 def make_f(d):
     from scico import functional as F
     k = d["kind"]
+    if k == "L21":
+        return F.L21Norm(l2_axis=tup(d["l2_axis"]))
+    if k == "Nuclear":
+        return F.NuclearNorm()
     if k == "Zero":
         return F.ZeroFunctional()
     if k == "L0":
@@ -284,10 +288,19 @@ def make_f(d):
     raise ValueError(k)
 
 
-def coq_f(d, D, layer):
-    """Coq term : ext Qc, the value of functional d on flat data term D; layer 'spec'|'impl'"""
+def coq_f(d, D, layer, arr=None, blk=None):
+    """Coq term : ext Qc, the value of functional d on flat data term D; layer 'spec'|'impl'.
+    Shape-dependent kinds (L21, Nuclear; separable stream only) need the Coq array term `arr`
+    and the JSON array `blk` (for the svd oracle)."""
     k = d["kind"]
     s = layer == "spec"
+    if k == "L21":
+        ax = natl(axes_norm(d["l2_axis"], len(blk["shape"])))
+        return f"(Fin ({'l21_spec' if s else 'l21_impl'} qrt {ax} {arr}))"
+    if k == "Nuclear":
+        sv = np.linalg.svd(to_np(blk), compute_uv=False)
+        o = "(svd_oracle " + coq_list([qlit(t) for t in sv]) + ")"
+        return f"(Fin ({'nuclear_spec' if s else 'nuclear_impl'} {o} {arr}))"
     if k == "Zero":
         return f"(Fin ({'zero_spec' if s else 'zero_impl'} {D}))"
     if k == "L0":
@@ -315,9 +328,10 @@ def coq_f(d, D, layer):
                 else f"(Fin (sqsetdist_impl qrt {coq_proj(d['proj'])} {D}))")
     if k == "Scaled":
         c = d["c1"] * d["c2"] if d.get("how") == "twice" else d["c"]
-        return f"({'scaled_spec' if s else 'scaled_impl'} {Q(c)} {coq_f(d['f'], D, layer)})"
+        return f"({'scaled_spec' if s else 'scaled_impl'} {Q(c)} {coq_f(d['f'], D, layer, arr, blk)})"
     if k == "Sum":
-        return f"({'fsum_spec' if s else 'fsum_impl'} {coq_f(d['f'], D, layer)} {coq_f(d['g'], D, layer)})"
+        return (f"({'fsum_spec' if s else 'fsum_impl'} {coq_f(d['f'], D, layer, arr, blk)} "
+                f"{coq_f(d['g'], D, layer, arr, blk)})")
     raise ValueError(k)
 
 
@@ -437,10 +451,8 @@ def gen_cases(ctx: Ctx):
             add("FunctionalSum", f={"kind": "Sum", "f": f, "g": g}, x=x)
 
     # --- SeparableFunctional
-    for _ in range(n(22, 300)):
-        x = gen_block(rng, nblocks=rng.choice([1, 2, 3]))
-        fs = [gen_leaf(rng, b) for b in x]
-        add("SeparableFunctional", fs=fs, x=x)
+    for _ in range(n(30, 400)):
+        add("SeparableFunctional", **gen_separable(rng))
 
     # --- ProximalAverage
     for _ in range(n(28, 350)):
@@ -558,6 +570,80 @@ def gen_cases(ctx: Ctx):
     return cases
 
 
+NONADDITIVE = ["L2", "L21", "L1mL2", "HuberNonSep", "Nuclear", "L2Ball", "SetDist"]
+
+
+def gen_shared_leaf(rng, kind, cplx):
+    """descriptor of ONE functional object that is applied to several blocks of different
+    shapes (so nothing in it may depend on a block's shape)"""
+    d = {"kind": kind}
+    if kind == "L21":
+        d["l2_axis"] = rng.choice([0, 0, None, -1])
+    if kind == "L1mL2":
+        d["beta"] = rng.choice([0.5, 1.0, 2.0])
+    if kind in ("HuberSep", "HuberNonSep"):
+        d["delta"] = rng.choice([0.5, 1.0, 1.5, 3.0])
+    if kind == "L2Ball":
+        d["radius"] = rng.choice([1.0, 2.0, 3.0, 5.0])
+    if kind in ("SetDist", "SqSetDist"):
+        lo = dy(rng, 1, -2, 0)
+        d["proj"] = ({"p": "nonneg"} if rng.random() < 0.5 else
+                     {"p": "box", "lo": lo, "hi": lo + rng.choice([0.5, 1.0, 2.5]), "use_args": rng.random() < 0.5})
+    r = rng.random()
+    if r < 0.15:
+        d = {"kind": "Scaled", "f": d, "how": rng.choice(["ctor", "rmul"]), "c": rng.choice([0.5, 2.0, 3.0])}
+    elif r < 0.3:
+        d = {"kind": "Sum", "f": d, "g": {"kind": rng.choice(["L1", "SqL2", "L2"])}}
+    return d
+
+
+def gen_separable(rng):
+    """SeparableFunctional cases.  `objs` are the distinct functional OBJECTS, `share[i]` the
+    index of the object used for block i (the same Python object may be listed several
+    times: [g, g], [g]*3, [g, h, g]); `fs` is the per-block expansion used for the Coq terms.
+    Documented value: sum_i f_i(x_i), whatever the identity of the objects."""
+    r = rng.random()
+    if r < 0.35:
+        # independent objects, one per block (as generated per block)
+        x = gen_block(rng, nblocks=rng.choice([1, 2, 3]))
+        objs = [gen_leaf(rng, b) for b in x]
+        share = list(range(len(x)))
+    else:
+        kind = rng.choice(NONADDITIVE + NONADDITIVE + ["SqSetDist", "L1", "HuberSep"])
+        cplx = rng.random() < 0.2 and kind not in ("SetDist", "SqSetDist")
+        pat = rng.choice(["gg", "gg", "ggg", "ghg", "g_g", "g"])
+        nb = {"gg": 2, "ggg": 3, "ghg": 3, "g_g": 2, "g": 1}[pat]
+        if kind == "Nuclear":
+            shapes = [[rng.randint(1, 3), rng.randint(1, 3)] for _ in range(nb)]
+        elif kind == "L21":
+            shapes = [gen_shape(rng, ndim=rng.choice([1, 2, 2, 3]), maxsize=8) for _ in range(nb)]
+        else:
+            shapes = [gen_shape(rng, maxsize=8) for _ in range(nb)]
+        x = [gen_array(rng, shp, cplx=cplx, kind=rng.choice(["dense", "dense", "sparse"])) for shp in shapes]
+        g = gen_shared_leaf(rng, kind, cplx)
+        if kind == "L2Ball" and rng.random() < 0.6:
+            # every block inside the ball, the concatenation outside (or on the boundary)
+            rad = g["f"]["radius"] if g["kind"] in ("Scaled", "Sum") else g["radius"]
+            for b in x:
+                m = len(b["re"])
+                b["re"] = [0.0] * m
+                b["re"][rng.randrange(m)] = rad * rng.choice([1.0, 0.75, -1.0, 0.5])
+                if b["im"] is not None:
+                    b["im"] = [0.0] * m
+        if pat == "ghg":
+            h = gen_shared_leaf(rng, rng.choice(["L1", "SqL2", "L2", "HuberNonSep"]), cplx)
+            objs, share = [g, h], [0, 1, 0]
+        elif pat == "g_g":
+            # control: two DISTINCT objects built from the same descriptor
+            objs, share = [g, dict(g)], [0, 1]
+        else:
+            objs, share = [g], [0] * nb
+    c = {"objs": objs, "share": share, "fs": [objs[i] for i in share], "x": x}
+    if rng.random() < 0.25:
+        c["outer_scale"] = rng.choice([0.5, 2.0, 3.0])       # c * SeparableFunctional([...])
+    return c
+
+
 def strip_im(W):
     if is_block(W):
         return [strip_im(b) for b in W]
@@ -660,7 +746,15 @@ def _run_impl(c):
     if u == "NuclearNorm":
         return F.NuclearNorm()(to_snp(c["x"]))
     if u == "SeparableFunctional":
-        return F.SeparableFunctional([make_f(d) for d in c["fs"]])(to_snp(c["x"]))
+        if "objs" in c:
+            objs = [make_f(d) for d in c["objs"]]
+            fl_ = [objs[i] for i in c["share"]]          # repeated entries are THE SAME object
+        else:
+            fl_ = [make_f(d) for d in c["fs"]]
+        f = F.SeparableFunctional(fl_)
+        if c.get("outer_scale") is not None:
+            f = c["outer_scale"] * f
+        return f(to_snp(c["x"]))
     if u == "ProximalAverage":
         return F.ProximalAverage([make_f(d) for d in c["fs"]], c["alphas"], no_inf_eval=c["no_inf_eval"])(to_snp(c["x"]))
     if u in ("Loss", "SquaredL2Loss", "SquaredL2AbsLoss", "SquaredL2SquaredAbsLoss", "PoissonLoss"):
@@ -774,10 +868,16 @@ def coq_case(c, v):
         o = "(svd_oracle " + coq_list([qlit(s) for s in sv]) + ")"
         return f"(chk_close {Q(v)} (nuclear_spec {o} {coq_arr(c['x'])}) (nuclear_impl {o} {coq_arr(c['x'])}))"
     if u == "SeparableFunctional":
-        xs = coq_list([coq_data(b) for b in c["x"]])
-        fs_s = coq_list([f"(fun d => {coq_f(d, 'd', 'spec')})" for d in c["fs"]])
-        fs_i = coq_list([f"(fun d => {coq_f(d, 'd', 'impl')})" for d in c["fs"]])
-        return f"(chko_close {ext_lit(v)} (separable_spec {fs_s} {xs}) (separable_impl {fs_i} {xs}))"
+        xs = coq_list([coq_arr(b) for b in c["x"]])
+        fs_s = coq_list([f"(fun a : arr (K:=Qc) => {coq_f(d, '(adata a)', 'spec', 'a', b)})"
+                         for d, b in zip(c["fs"], c["x"])])
+        fs_i = coq_list([f"(fun a : arr (K:=Qc) => {coq_f(d, '(adata a)', 'impl', 'a', b)})"
+                         for d, b in zip(c["fs"], c["x"])])
+        sp, im = f"(separable_spec {fs_s} {xs})", f"(separable_impl {fs_i} {xs})"
+        if c.get("outer_scale") is not None:
+            k = Q(c["outer_scale"])
+            sp, im = f"(scaled_spec {k} {sp})", f"(option_map (scaled_impl {k}) {im})"
+        return f"(chko_close {ext_lit(v)} {sp} {im})"
     if u == "ProximalAverage":
         D = coq_flat(c["x"])
         vs = coq_list([coq_f(d, D, "spec") for d in c["fs"]])
